@@ -11,7 +11,8 @@ girepository/gitypelib-internal.h, gitypelib.c, gthash.c and girmodule.c on ever
   the clamp statement of `_gi_typelib_hash_search`,
 * in girmodule.c: the width of `required_size` and the alignment of the section,
 * in girepository.c: the CACHE SKELETON of the repository-level lookups - for register_internal,
-  get_registered_status, g_irepository_find_by_gtype and g_irepository_find_by_error_domain (and
+  get_registered_status, g_irepository_load_typelib, require_internal (which typelib a lazy ->
+  loaded transition registers), g_irepository_find_by_gtype and g_irepository_find_by_error_domain (and
   any other function that touches priv->info_by_gtype / info_by_error_domain / unknown_gtypes)
   every statement that reads, fills or clears one of the five tables of GIRepositoryPrivate and
   every `return`, each with the chain of `if`/`else` conditions it is nested in.  The model's
@@ -72,8 +73,8 @@ def uint_bits(ctype):
 
 TABLES = ('typelibs', 'lazy_typelibs', 'info_by_gtype', 'info_by_error_domain', 'unknown_gtypes')
 CACHES = ('info_by_gtype', 'info_by_error_domain', 'unknown_gtypes')
-LOOKUP_FUNCS = ('get_registered_status', 'register_internal', 'g_irepository_find_by_gtype',
-                'g_irepository_find_by_error_domain')
+LOOKUP_FUNCS = ('get_registered_status', 'register_internal', 'g_irepository_load_typelib', 'require_internal',
+                'g_irepository_find_by_gtype', 'g_irepository_find_by_error_domain')
 
 
 def squeeze(s):
@@ -303,6 +304,26 @@ def main():
     if not inline_names or not macro_names:
         fail('BLOB_IS_REGISTERED_TYPE accepts no blob type')
 
+    # which blob struct each top-level blob kind is written with (girnode.c) and which of those
+    # structs carry a `gtype_name` member (the header): the blob kinds that CAN be registered types
+    gn = strip_comments(read('girnode.c'))
+    blob_struct = []
+    cur = None
+    for m in re.finditer(r'(\w+Blob)\s*\*blob\s*=\s*\(\s*\1\s*\*\s*\)|blob->blob_type\s*=\s*(BLOB_TYPE_\w+)\s*;', gn):
+        if m.group(1):
+            cur = m.group(1)
+        elif cur is not None and m.group(2) in values and (m.group(2), cur) not in blob_struct:
+            blob_struct.append((m.group(2), cur))
+    if not blob_struct:
+        fail('girnode.c: no `XBlob *blob = ...; blob->blob_type = BLOB_TYPE_Y;` pairs found')
+    with_gtype = set()
+    for m in re.finditer(r'typedef\s+struct\s*\{([^{}]*)\}\s*(\w+)\s*;', hdr):
+        if re.search(r'\bguint32\s+gtype_name\s*;', m.group(1)):
+            with_gtype.add(m.group(2))
+    if 'RegisteredTypeBlob' not in with_gtype:
+        fail('gitypelib-internal.h: RegisteredTypeBlob with a gtype_name member not found')
+    gtype_kinds = sorted(set(values[b] for b, st in blob_struct if st in with_gtype))
+
     tl = strip_comments(read('gitypelib.c'))
     body = function_body(tl, 'g_typelib_get_dir_entry_by_error_domain')
     dm = re.findall(r'entry->blob_type\s*(==|!=)\s*(BLOB_TYPE_\w+)', body)
@@ -348,7 +369,7 @@ def main():
 
     sites = cache_sites()
 
-    text = '''-- GENERATED by translators/gen_lookup.py from girepository/{gitypelib-internal.h,gitypelib.c,gthash.c,girmodule.c,girepository.c}. Do not edit.
+    text = '''-- GENERATED by translators/gen_lookup.py from girepository/{gitypelib-internal.h,gitypelib.c,gthash.c,girmodule.c,girnode.c,girepository.c}. Do not edit.
 namespace GIVerif.Gen
 
 /-- enumerators of GTypelibBlobType as declared in the header -/
@@ -363,6 +384,12 @@ def registeredMacro : List (String × Nat) := %s
 
 /-- blob types g_typelib_get_dir_entry_by_gtype_name looks at -/
 def registeredBlobTypes : List Nat := %s
+
+/-- girnode.c: the struct each blob kind is written with (kind, struct, value of the kind) -/
+def blobStructOf : List (String × String × Nat) := %s
+
+/-- the blob kinds whose struct has a `gtype_name` member (the header): what can be a registered type -/
+def gtypeNameBlobTypes : List Nat := %s
 
 /-- the one blob type g_typelib_get_dir_entry_by_error_domain looks at -/
 def errorDomainBlobType : String × Nat := (%s, %d)
@@ -401,6 +428,8 @@ end GIVerif.Gen
        lean_list(['(%s, %d)' % (lean_str(n), values[n]) for n in inline_names]),
        lean_list(['(%s, %d)' % (lean_str(n), values[n]) for n in macro_names]),
        lean_list(['%d' % values[n] for n in inline_names]),
+       lean_list(['(%s, %s, %d)' % (lean_str(b), lean_str(st), values[b]) for b, st in blob_struct]),
+       lean_list(['%d' % v for v in gtype_kinds]),
        lean_str(dm[0][1]), values[dm[0][1]],
        lean_str(sm.group(1)), lean_str(follower[0]),
        n_strcmp, lean_str(bound.group(1)),
